@@ -534,6 +534,15 @@ def run_history(rng, n_steps, stats):
     return calls, obs, viol, (len(em.expressions), em._next_free_id), outcomes
 
 
+def coq_failing_two_at_a_time(ctx, cases, ok_fn, imports, preamble, shard):
+    """ctx.coq_failing runs its shards in parallel; feed it two shards per call so that at most two coqc run at once."""
+    bad = []
+    for base in range(0, len(cases), 2 * shard):
+        part = cases[base:base + 2 * shard]
+        bad += [base + i for i in ctx.coq_failing(part, ok_fn, imports=imports, preamble=preamble, shard=shard, timeout=1500)]
+    return bad
+
+
 def run(ctx):
     ok_proofs = ctx.check_props(extra=["theories/Corr/Corr_C16.v"])
     rng = ctx.rng
@@ -557,7 +566,7 @@ def run(ctx):
             nontrivial.add(json.dumps(calls, default=str))
     imports = ["UPV.Model.HashCons", "UPV.Corr.Corr_C16"]
     pre = "Definition D : decls := %s.\n" % DECLS
-    bad = ctx.coq_failing(cases, "ok", imports=imports, preamble=pre, shard=10 if ctx.quick else 4, timeout=1500)
+    bad = coq_failing_two_at_a_time(ctx, cases, "ok", imports, pre, 20 if ctx.quick else 4)
     for h, v in oracle[:10]:
         ctx.fail("oracle", "hash-consing violated on the implementation: %s" % v["what"],
                  ["c16", "identity-oracle"], {"history": raw[h], "violation": v}, True)
